@@ -532,6 +532,9 @@ type genPkg struct {
 	dir, name, ip string
 }
 
+var docLines = []string{"Package documentation.", "the product (*) of two numbers", "End code.", "Section code.", "a *) b", "(* opened",
+	"From Perennial.goose_lang Require Import ffi.disk_prelude.", "", "(**)", "x (*) y (*) z", "End code. *)"}
+
 func genCase(t *rapid.T) Case {
 	var c Case
 	swTwo, swLast, swSingle := ev.SwitchOn(swTwoFfi), ev.SwitchOn(swLastElem), ev.SwitchOn(swSingleElem)
@@ -742,6 +745,20 @@ func genCase(t *rapid.T) Case {
 		}
 	}
 	c.Lib = gen.Range(t, "lib", 0, 2) == 0
+	// comments in front of the package clause, some with text that would be vernacular (or end the
+	// comment) if the comment did not hold
+	for pi := range c.Mod.Pkgs {
+		for fi := range c.Mod.Pkgs[pi].Files {
+			if !gen.Chance(t, "doc", 30) {
+				continue
+			}
+			k := gen.Range(t, "doclines", 1, 3)
+			for j := 0; j < k; j++ {
+				c.Mod.Pkgs[pi].Files[fi].Doc = append(c.Mod.Pkgs[pi].Files[fi].Doc, rapid.SampledFrom(docLines).Draw(t, "docline"))
+			}
+			ev.Label("file with a comment in front of the package clause")
+		}
+	}
 	return c
 }
 
